@@ -3,6 +3,7 @@ package nfa
 import (
 	"fmt"
 	"regexp/syntax"
+	"unicode"
 
 	"github.com/coregx/coregex/internal/conv"
 )
@@ -248,8 +249,9 @@ func (c *Compiler) compileLiteral(re *syntax.Regexp) (start, end StateID, err er
 	var first = InvalidState
 
 	for _, r := range runes {
-		// For case-insensitive matching of ASCII letters, create alternation
-		if foldCase && isASCIILetter(r) {
+		// For case-insensitive matching, create an alternation over the rune's
+		// simple case-folding orbit (a/A, é/É, k/K/KELVIN SIGN, σ/ς/Σ, ...)
+		if foldCase && unicode.SimpleFold(r) != r {
 			nextState, err := c.compileFoldCaseRune(r, prev, &first)
 			if err != nil {
 				return InvalidState, InvalidState, err
@@ -267,35 +269,33 @@ func (c *Compiler) compileLiteral(re *syntax.Regexp) (start, end StateID, err er
 	return first, prev, nil
 }
 
-// compileFoldCaseRune compiles a case-insensitive ASCII letter
-// by creating alternation between upper and lower case versions
+// compileFoldCaseRune compiles a case-insensitive rune by creating an
+// alternation between all members of its simple case-folding orbit
+// (the parser stores only one representative of the orbit in the literal).
 func (c *Compiler) compileFoldCaseRune(r rune, prev StateID, first *StateID) (StateID, error) {
-	upper := toUpperASCII(r)
-	lower := toLowerASCII(r)
-
-	// Build UTF-8 sequences for both cases
-	upperStart, upperEnd, err := c.compileSingleRune(upper)
-	if err != nil {
-		return InvalidState, err
-	}
-	lowerStart, lowerEnd, err := c.compileSingleRune(lower)
-	if err != nil {
-		return InvalidState, err
+	orbit := []rune{r}
+	for f := unicode.SimpleFold(r); f != r; f = unicode.SimpleFold(f) {
+		orbit = append(orbit, f)
 	}
 
 	// Create join state
 	nextState := c.builder.AddEpsilon(InvalidState)
 
-	// Connect both paths to join
-	if err := c.builder.Patch(upperEnd, nextState); err != nil {
-		return InvalidState, err
-	}
-	if err := c.builder.Patch(lowerEnd, nextState); err != nil {
-		return InvalidState, err
+	// Build the UTF-8 sequence of every variant and connect it to the join
+	starts := make([]StateID, 0, len(orbit))
+	for _, v := range orbit {
+		vStart, vEnd, err := c.compileSingleRune(v)
+		if err != nil {
+			return InvalidState, err
+		}
+		if err := c.builder.Patch(vEnd, nextState); err != nil {
+			return InvalidState, err
+		}
+		starts = append(starts, vStart)
 	}
 
-	// Create split state
-	split := c.builder.AddSplit(upperStart, lowerStart)
+	// Create split state(s)
+	split := c.buildSplitChain(starts)
 
 	if prev == InvalidState {
 		// First character - split becomes the start
